@@ -51,6 +51,7 @@ type JobConfig struct {
 	TimeoutMs  int
 	StopFirst  bool
 	Samples    int
+	SampleEvery int // additionally sample every n-th path of a worker (0 = off)
 	Concrete   []string          // concrete replay vector (values in call order); nil = symbolic
 	KnownIDs   map[string]bool   // listed known-finding ids (others attribute nothing)
 	Params     map[string]int64  // harness parameters readable via vParam
@@ -725,7 +726,7 @@ func (e *Exec) runPath(prefix []int64) {
 	e.call(e.sh.entry, nil)
 	e.st.Paths++
 	// reachability witness + sample
-	if int(e.st.Paths) <= e.sh.cfg.Samples || len(e.inputs) == 0 {
+	if int(e.st.Paths) <= e.sh.cfg.Samples || len(e.inputs) == 0 || (e.sh.cfg.SampleEvery > 0 && int(e.st.Paths)%e.sh.cfg.SampleEvery == 0) {
 		if len(e.inputs) > 0 {
 			if e.sol.Check() == "sat" {
 				m := e.model()
